@@ -666,7 +666,7 @@ class TypeBlocks(ContainerOperand):
         '''Return a new TypeBlocks that unifies all adjacent types.
         '''
         # note: not sure if we have a single block if we should return a new TypeBlocks instance (as done presently), or simply return self; either way, no new np arrays will be created
-        return self.from_blocks(self.consolidate_blocks(raw_blocks=self._blocks))
+        return self.from_blocks(self.consolidate_blocks(raw_blocks=self._blocks), shape_reference=self._shape)
 
 
     def resize_blocks(self, *,
@@ -2143,8 +2143,8 @@ class TypeBlocks(ContainerOperand):
             key: GetItemKeyTypeCompound
             ) -> 'TypeBlocks':
         if isinstance(key, tuple):
-            return TypeBlocks.from_blocks(self._mask_blocks(*key))
-        return TypeBlocks.from_blocks(self._mask_blocks(row_key=key))
+            return TypeBlocks.from_blocks(self._mask_blocks(*key), shape_reference=self._shape)
+        return TypeBlocks.from_blocks(self._mask_blocks(row_key=key), shape_reference=self._shape)
 
     def extract_bloc(self,
             bloc_key: np.ndarray,
@@ -2216,7 +2216,9 @@ class TypeBlocks(ContainerOperand):
         return TypeBlocks.from_blocks(self._assign_from_iloc_by_unit(
                 row_key=row_key,
                 column_key=column_key,
-                value=value))
+                value=value),
+                shape_reference=self._shape
+                )
 
     def extract_iloc_assign_by_blocks(self,
             key: tp.Tuple[GetItemKeyType, GetItemKeyType],
@@ -2230,7 +2232,9 @@ class TypeBlocks(ContainerOperand):
                 row_key=row_key,
                 column_key=column_key,
                 values=values,
-                ))
+                ),
+                shape_reference=self._shape
+                )
 
     def extract_bloc_assign_by_unit(self,
             key: np.ndarray,
@@ -2239,7 +2243,9 @@ class TypeBlocks(ContainerOperand):
         return TypeBlocks.from_blocks(self._assign_from_bloc_by_unit(
                 bloc_key=key,
                 value=value
-                ))
+                ),
+                shape_reference=self._shape
+                )
 
     def extract_bloc_assign_by_blocks(self,
             key: np.ndarray,
@@ -2248,7 +2254,9 @@ class TypeBlocks(ContainerOperand):
         return TypeBlocks.from_blocks(self._assign_from_bloc_by_blocks(
                 bloc_key=key,
                 values=values
-                ))
+                ),
+                shape_reference=self._shape
+                )
 
     def extract_bloc_assign_by_coordinate(self,
             key: np.ndarray,
@@ -2259,7 +2267,9 @@ class TypeBlocks(ContainerOperand):
                 bloc_key=key,
                 values_map=values_map,
                 values_dtype=values_dtype,
-                ))
+                ),
+                shape_reference=self._shape
+                )
 
 
     #---------------------------------------------------------------------------
@@ -2319,7 +2329,7 @@ class TypeBlocks(ContainerOperand):
                 result.flags.writeable = False
                 yield result
 
-        return self.from_blocks(operation())
+        return self.from_blocks(operation(), shape_reference=self._shape)
 
     #---------------------------------------------------------------------------
 
@@ -2395,14 +2405,18 @@ class TypeBlocks(ContainerOperand):
                     values=self_operands,
                     other=other,
                     operator=operator,
-                    ))
+                    ),
+                shape_reference=self._shape
+                )
 
         return self.from_blocks(apply_binary_operator_blocks(
                 values=self_operands,
                 other=other_operands,
                 operator=operator,
                 apply_column_2d_filter=apply_column_2d_filter,
-                ))
+                ),
+                shape_reference=self._shape
+                )
 
     #---------------------------------------------------------------------------
     # transformations resulting in the same dimensionality
@@ -2413,7 +2427,7 @@ class TypeBlocks(ContainerOperand):
         if hasattr(other, '__len__') and len(other) == 0:
             array = np.full(self._shape, False, dtype=bool)
             array.flags.writeable = False
-            return self.from_blocks(array)
+            return self.from_blocks(array, shape_reference=self._shape)
 
         other, other_is_unique = iterable_to_array_1d(other)
 
@@ -2426,7 +2440,7 @@ class TypeBlocks(ContainerOperand):
                         other_is_unique=other_is_unique,
                         )
 
-        return self.from_blocks(blocks())
+        return self.from_blocks(blocks(), shape_reference=self._shape)
 
 
     def transpose(self) -> 'TypeBlocks':
@@ -2453,7 +2467,7 @@ class TypeBlocks(ContainerOperand):
                 bool_block.flags.writeable = False
                 yield bool_block
 
-        return self.from_blocks(blocks())
+        return self.from_blocks(blocks(), shape_reference=self._shape)
 
 
     def notna(self, include_none: bool = True) -> 'TypeBlocks':
@@ -2465,7 +2479,7 @@ class TypeBlocks(ContainerOperand):
                 bool_block.flags.writeable = False
                 yield bool_block
 
-        return self.from_blocks(blocks())
+        return self.from_blocks(blocks(), shape_reference=self._shape)
 
 
     def clip(self,
@@ -2576,7 +2590,7 @@ class TypeBlocks(ContainerOperand):
                 yield np.clip(b, lb, ub)
                 start = end
 
-        return self.from_blocks(blocks())
+        return self.from_blocks(blocks(), shape_reference=self._shape)
 
     #---------------------------------------------------------------------------
     # fillna sided
@@ -2741,12 +2755,16 @@ class TypeBlocks(ContainerOperand):
             return self.from_blocks(self._fillna_sided_axis_0(
                     blocks=self._blocks,
                     value=value,
-                    sided_leading=True))
+                    sided_leading=True),
+                shape_reference=self._shape
+                )
         elif axis == 1:
             return self.from_blocks(self._fillna_sided_axis_1(
                     blocks=self._blocks,
                     value=value,
-                    sided_leading=True))
+                    sided_leading=True),
+                shape_reference=self._shape
+                )
         raise NotImplementedError(f'no support for axis {axis}')
 
     def fillna_trailing(self,
@@ -2759,14 +2777,16 @@ class TypeBlocks(ContainerOperand):
             return self.from_blocks(self._fillna_sided_axis_0(
                     blocks=self._blocks,
                     value=value,
-                    sided_leading=False))
+                    sided_leading=False),
+                shape_reference=self._shape
+                )
         elif axis == 1:
             # must reverse when not leading
             blocks = reversed(tuple(self._fillna_sided_axis_1(
                     blocks=self._blocks,
                     value=value,
                     sided_leading=False)))
-            return self.from_blocks(blocks)
+            return self.from_blocks(blocks, shape_reference=self._shape)
 
         raise NotImplementedError(f'no support for axis {axis}')
 
@@ -3028,13 +3048,17 @@ class TypeBlocks(ContainerOperand):
                     blocks=self._blocks,
                     directional_forward=True,
                     limit=limit
-                    ))
+                    ),
+                shape_reference=self._shape
+                )
         elif axis == 1:
             return self.from_blocks(self._fillna_directional_axis_1(
                     blocks=self._blocks,
                     directional_forward=True,
                     limit=limit
-                    ))
+                    ),
+                shape_reference=self._shape
+                )
 
         raise AxisInvalid(f'no support for axis {axis}')
 
@@ -3050,14 +3074,16 @@ class TypeBlocks(ContainerOperand):
                     blocks=self._blocks,
                     directional_forward=False,
                     limit=limit
-                    ))
+                    ),
+                shape_reference=self._shape
+                )
         elif axis == 1:
             blocks = reversed(tuple(self._fillna_directional_axis_1(
                     blocks=self._blocks,
                     directional_forward=False,
                     limit=limit
                     )))
-            return self.from_blocks(blocks)
+            return self.from_blocks(blocks, shape_reference=self._shape)
 
         raise AxisInvalid(f'no support for axis {axis}')
 
@@ -3116,7 +3142,8 @@ class TypeBlocks(ContainerOperand):
                         targets=(isna_array(b) for b in self._blocks),
                         value=value,
                         value_valid=value_valid
-                        )
+                        ),
+                shape_reference=self._shape
                 )
 
     def fillna_by_values(self,
@@ -3132,7 +3159,8 @@ class TypeBlocks(ContainerOperand):
                 self._assign_from_boolean_blocks_by_blocks(
                         targets=(isna_array(b) for b in self._blocks),
                         values=values,
-                        )
+                        ),
+                shape_reference=self._shape
                 )
 
     @doc_inject()
